@@ -45,7 +45,23 @@ pub fn as_i64(v: &emit::Value) -> Option<i64> {
     if let Some(t) = v.by_ref().cast::<emit::span::TraceId>() {
         return Some(t.to_u128() as i64);
     }
-    v.by_ref().cast::<emit::span::SpanId>().map(|s| s.to_u64() as i64)
+    if let Some(s) = v.by_ref().cast::<emit::span::SpanId>() {
+        return Some(s.to_u64() as i64);
+    }
+    if let Some(k) = v.by_ref().cast::<emit::Kind>() {
+        return Some(kind_code(&k));
+    }
+    // span_name / metric_name / metric_agg are texts made from an integer
+    v.by_ref().cast::<emit::Str>().and_then(|s| s.get().parse::<i64>().ok())
+}
+
+/// evt_kind read back as the integer the model uses for it
+fn kind_code(k: &emit::Kind) -> i64 {
+    match k {
+        emit::Kind::Span => 31,
+        emit::Kind::Metric => 32,
+        _ => 39,
+    }
 }
 
 fn pull_any<P: Props + ?Sized>(p: &P, k: &str) -> Option<i64> {
@@ -53,6 +69,8 @@ fn pull_any<P: Props + ?Sized>(p: &P, k: &str) -> Option<i64> {
         .or_else(|| p.pull::<emit::Timestamp, _>(k).map(|t| t.to_unix().as_secs() as i64))
         .or_else(|| p.pull::<emit::span::TraceId, _>(k).map(|t| t.to_u128() as i64))
         .or_else(|| p.pull::<emit::span::SpanId, _>(k).map(|t| t.to_u64() as i64))
+        .or_else(|| p.pull::<emit::Kind, _>(k).map(|k| kind_code(&k)))
+        .or_else(|| p.pull::<emit::Str, _>(k).and_then(|s| s.get().parse::<i64>().ok()))
 }
 
 fn enumerate<P: Props + ?Sized>(p: &P, break_at: usize, bad: &mut bool) -> (Vec<KV>, usize, bool) {
@@ -291,14 +309,90 @@ pub fn pairs(t: &Value) -> Vec<(&'static str, i64)> {
 /// What a thread-local context holds after the pairs were pushed as a frame, as seen by
 /// `with_current` while the frame is entered.
 pub fn ctxt_snapshot(p: &[(&'static str, i64)]) -> emit::platform::thread_local_ctxt::ThreadLocalCtxtFrame {
+    ctxt_snapshot_nested(&[p.to_vec()])
+}
+
+/// The snapshot while all the frames are pushed and entered, outermost first.
+pub fn ctxt_snapshot_nested(frames: &[Vec<(&'static str, i64)>]) -> emit::platform::thread_local_ctxt::ThreadLocalCtxtFrame {
     use emit::Ctxt;
     let ctxt = emit::platform::thread_local_ctxt::ThreadLocalCtxt::new();
-    let mut frame = ctxt.open_push(p);
-    ctxt.enter(&mut frame);
+    let mut open = Vec::new();
+    for f in frames {
+        let mut frame = ctxt.open_push(&f[..]);
+        ctxt.enter(&mut frame);
+        open.push(frame);
+    }
     let snap = ctxt.with_current(|c| c.clone());
-    ctxt.exit(&mut frame);
-    ctxt.close(frame);
+    while let Some(mut frame) = open.pop() {
+        ctxt.exit(&mut frame);
+        ctxt.close(frame);
+    }
     snap
+}
+
+/// The ctxt leaf of the model: a single frame, or nested frames (`frames`).
+pub fn ctxt_of(t: &Value) -> emit::platform::thread_local_ctxt::ThreadLocalCtxtFrame {
+    match t.get("frames") {
+        Some(f) => ctxt_snapshot_nested(
+            &f.as_array().unwrap().iter().map(|fr| kvs_of(fr).into_iter().map(|(k, v)| (leak_str(&k), v)).collect()).collect::<Vec<_>>(),
+        ),
+        None => ctxt_snapshot(&pairs(t)),
+    }
+}
+
+/// Which value a snapshot keeps for a key pushed by several frames is not C02's subject:
+/// TLC enumerates every resolution as a case of its own, and a case applies only when
+/// every nested-frames leaf of its tree resolves the way the real snapshot does.
+/// Returns (applies, a real snapshot holds something no resolution allows).
+pub fn resolution_applies(t: &Value) -> (bool, bool) {
+    let mut applies = true;
+    let mut alien = false;
+    if t["op"] == "ctxt" {
+        if let Some(frames) = t.get("frames") {
+            let mut bad = false;
+            let (got, _, _) = enumerate(&ctxt_of(t), 0, &mut bad);
+            let mut got = got;
+            got.sort();
+            let mut want = kvs_of(&t["kvs"]);
+            want.sort();
+            applies = got == want;
+            let pushed: Vec<KV> = frames.as_array().unwrap().iter().flat_map(|f| kvs_of(f)).collect();
+            alien = bad || got.iter().any(|e| !pushed.contains(e));
+        }
+    }
+    for f in ["t", "l", "r"] {
+        if let Some(c) = t.get(f) {
+            if c.is_object() {
+                let (a, x) = resolution_applies(c);
+                applies &= a;
+                alien |= x;
+            }
+        }
+    }
+    (applies, alien)
+}
+
+pub const SPAN_NAME: &str = "41";
+pub const METRIC_NAME: &str = "42";
+pub const METRIC_AGG: &str = "43";
+pub const METRIC_VALUE: i64 = 44;
+
+/// The property view of a Span event over the given user properties, as
+/// `span.to_event().props()` hands it out.
+pub fn span_view<P: Props + 'static>(user: P) -> &'static emit::span::Span<'static, P> {
+    use emit::event::ToEvent;
+    let span: &'static emit::span::Span<'static, P> =
+        leak(emit::span::Span::new(emit::Path::new_raw("m"), SPAN_NAME, emit::Empty, user));
+    let evt = leak(span.to_event());
+    *evt.props()
+}
+
+pub fn metric_view<P: Props + 'static>(user: P) -> &'static emit::metric::Metric<'static, P> {
+    use emit::event::ToEvent;
+    let metric: &'static emit::metric::Metric<'static, P> =
+        leak(emit::metric::Metric::new(emit::Path::new_raw("m"), METRIC_NAME, METRIC_AGG, emit::Empty, METRIC_VALUE, user));
+    let evt = leak(metric.to_event());
+    *evt.props()
 }
 
 fn ts(s: i64) -> emit::Timestamp {
@@ -355,7 +449,9 @@ pub fn interp(t: &Value) -> Dyn {
             }
             leak(m)
         }
-        "ctxt" => leak(ctxt_snapshot(&pairs(t))),
+        "ctxt" => leak(ctxt_of(t)),
+        "span" => span_view(interp(&t["t"])),
+        "metric" => metric_view(interp(&t["t"])),
         "extent" => leak(extent_view(&pairs(t))),
         "spanctxt" => leak(span_ctxt_view(&pairs(t))),
         "opt" => leak(Some(interp(&t["t"]))),
